@@ -62,6 +62,9 @@ class BalancedMoveRule(BaseRule):
         if isinstance(node.parent, MultiplyExpression) and isinstance(
             node, ConstantExpression
         ):
+            # Dividing both sides by zero does not produce an equivalent equation
+            if node.value == 0:
+                return None
             # NOTE: Don't allow divisions or multiplications if there are additions
             #       remaining on the same side of the equation
             if self.has_add_siblings(node):
